@@ -74,6 +74,9 @@ func selftest() error {
 	if err := sim.SelfTestDataMirror(); err != nil {
 		return err
 	}
+	if err := sim.SelfTestSchedFallbacks(); err != nil {
+		return err
+	}
 	if err := sim.SelfTestMutexPeek(); err != nil {
 		return err
 	}
@@ -300,6 +303,14 @@ func checkMain(a []string) int {
 			} else {
 				hard = true
 				fmt.Fprintf(os.Stderr, "shard %d exited %d:\n%s\n...\n%s\n", jobs[ji].shard, o.code, head(o.log, 1500), tail(o.log, 2500))
+				// keep the whole log and the case: harness trouble must be diagnosable
+				_ = os.MkdirAll(replayDir, 0o755)
+				lp := filepath.Join(replayDir, fmt.Sprintf("harness-error-%s-%d-%d.log", prop, seed, jobs[ji].shard))
+				_ = os.WriteFile(lp, []byte(o.log), 0o644)
+				if b, err := os.ReadFile(o.current); err == nil {
+					_ = os.WriteFile(lp+".case.json", b, 0o644)
+				}
+				fmt.Fprintf(os.Stderr, "(complete shard log: %s)\n", lp)
 				if o.stats == nil {
 					continue
 				}
@@ -422,8 +433,14 @@ func checkMain(a []string) int {
 	}
 	if !hard || len(violations) > 0 {
 		b, _ := json.MarshalIndent(ev, "", " ")
-		_ = os.MkdirAll(filepath.Join(verifDir, "evidence"), 0o755)
-		if err := os.WriteFile(filepath.Join(verifDir, "evidence", prop+".json"), b, 0o644); err != nil {
+		// evaluations of deliberately broken trees (tools/eval_mutant.sh) must
+		// not overwrite the evidence of the real tree
+		evDir := filepath.Join(verifDir, "evidence")
+		if d := os.Getenv("ICESIM_EVIDENCE_DIR"); d != "" {
+			evDir = d
+		}
+		_ = os.MkdirAll(evDir, 0o755)
+		if err := os.WriteFile(filepath.Join(evDir, prop+".json"), b, 0o644); err != nil {
 			fmt.Fprintln(os.Stderr, err)
 			return 2
 		}
